@@ -12,6 +12,7 @@ import (
 	"os"
 	"os/exec"
 	"path/filepath"
+	"strings"
 	"time"
 
 	"github.com/notaryproject/notation-core-go/revocation"
@@ -455,6 +456,14 @@ func (w *world) sweepRegistry(c *common.Ctx) {
 		{"no-layers", func(s int64) string {
 			return fmt.Sprintf(`{"schemaVersion":2,"mediaType":%q,"config":%s,"layers":[],"subject":%s,"annotations":{"z":"%d"}}`, ocispec.MediaTypeImageManifest, cfg, subj, s)
 		}},
+		// no subject at all: the layout's predecessor index still lists the node for the subject artifact, which
+		// it reaches through its blobs / layers
+		{"artifact-manifest-no-subject", func(s int64) string {
+			return fmt.Sprintf(`{"mediaType":"application/vnd.oci.artifact.manifest.v1+json","artifactType":"application/vnd.cncf.notary.signature","blobs":[%s,%s],"annotations":{"q":"%d"}}`, layer(s), subj, s)
+		}},
+		{"image-manifest-no-subject", func(s int64) string {
+			return fmt.Sprintf(`{"schemaVersion":2,"mediaType":%q,"config":%s,"layers":[%s,%s],"annotations":{"r":"%d"}}`, ocispec.MediaTypeImageManifest, cfg, layer(s), subj, s)
+		}},
 		{"null-fields", func(s int64) string {
 			return fmt.Sprintf(`{"schemaVersion":2,"mediaType":%q,"config":%s,"layers":null,"subject":%s,"annotations":null,"x":%d}`, ocispec.MediaTypeImageManifest, cfg, subj, s)
 		}},
@@ -475,7 +484,7 @@ func (w *world) sweepRegistry(c *common.Ctx) {
 		fmt.Sscanf(child, "%d,%d", &vi, &si)
 		v, s := variants[vi], sizes[si]
 		mt := ocispec.MediaTypeImageManifest
-		if v.label == "artifact-manifest" {
+		if strings.HasPrefix(v.label, "artifact-manifest") {
 			mt = "application/vnd.oci.artifact.manifest.v1+json"
 		}
 		md := push(mt, []byte(v.json(s)))
